@@ -19,14 +19,21 @@ import (
 func paramRoot(v ssa.Value) (string, bool) {
 	switch x := v.(type) {
 	case *ssa.Parameter:
-		return x.Name(), true
+		return paramPos(x), true
 	case *ssa.FreeVar:
-		return x.Name(), true
+		if fn := x.Parent(); fn != nil {
+			for i, fv := range fn.FreeVars {
+				if fv == x {
+					return fmt.Sprintf("^%d", i), true
+				}
+			}
+		}
+		return "^?", true
 	case *ssa.Alloc:
 		sts := storesTo(x)
 		if len(sts) == 1 {
 			if p, ok := sts[0].Val.(*ssa.Parameter); ok {
-				return p.Name(), true
+				return paramPos(p), true
 			}
 		}
 	case *ssa.UnOp:
@@ -35,6 +42,19 @@ func paramRoot(v ssa.Value) (string, bool) {
 		}
 	}
 	return "", false
+}
+
+// paramPos names a parameter by position ("#0" is the receiver of a method), so that rules do not
+// depend on what a parameter is called.
+func paramPos(p *ssa.Parameter) string {
+	if fn := p.Parent(); fn != nil {
+		for i, q := range fn.Params {
+			if q == p {
+				return fmt.Sprintf("#%d", i)
+			}
+		}
+	}
+	return "#?"
 }
 
 // accessPath: v is (a load of) a chain of field selections rooted at a parameter: "w.subWalletID",
@@ -483,4 +503,44 @@ func opTree(v ssa.Value, d int) string {
 		return opTree(x.Tuple, d+1) + "#" + fmt.Sprint(x.Index)
 	}
 	return "?" + v.Name()
+}
+
+// px translates an expectation written with the parameter names the function had when the rule was
+// written ("msgConfig.Seqno", "w.subWalletID,internalMessages") into the positional form leaves()
+// produces ("#3.Seqno", "#0.subWalletID,#2"): sig is that parameter list, receiver first. Rules thus
+// read naturally and do not depend on what the parameters are called today.
+func px(sig, expr string) string {
+	names := strings.Split(sig, ",")
+	var out []string
+	for _, tok := range strings.Split(expr, ",") {
+		if tok == "" || strings.HasPrefix(tok, "call:") {
+			out = append(out, tok)
+			continue
+		}
+		root, rest := tok, ""
+		if i := strings.Index(tok, "."); i >= 0 {
+			root, rest = tok[:i], tok[i:]
+		}
+		done := false
+		for i, n := range names {
+			if n == root {
+				out = append(out, fmt.Sprintf("#%d%s", i, rest))
+				done = true
+			}
+		}
+		if !done {
+			out = append(out, tok)
+		}
+	}
+	sort.Strings(out)
+	return strings.Join(out, ",")
+}
+
+// pxMap applies px to every value of an expectation table.
+func pxMap(sig string, m map[string]string) map[string]string {
+	out := map[string]string{}
+	for k, v := range m {
+		out[k] = px(sig, v)
+	}
+	return out
 }
